@@ -271,6 +271,7 @@ def run(ctx, pid="C12"):
 
 def judge(ctx, jobs, drivers, pre=()):
     traces = [d.events for d in drivers]
+    n0 = ctx._tlc_n
     verdicts = ctx.validate_traces("ClassModelTrace", "ClassModelTrace.cfg",
                                    traces, chunk=400)
     for j, d, v in pre:
@@ -306,7 +307,7 @@ def judge(ctx, jobs, drivers, pre=()):
                                                ("GetClass", "Enumerate"))]
                         + [d.calls[idx - 1][:400]],
                         "failing_event": ev, "clause": clause})
-    collect_drift(ctx)
+    collect_drift(ctx, n0)
     ctx.extra["impl_lockstep"] = (
         "every trace is also followed by the code-shaped machine "
         "(ClassModelImplOps, switches as in ClassModelTrace.cfg); events "
@@ -318,10 +319,14 @@ def judge(ctx, jobs, drivers, pre=()):
                                       if e["op"] == "Get"), None)})
 
 
-def collect_drift(ctx):
-    import glob
+def collect_drift(ctx, n0):
+    """<<"D", tid, l, {..}>> lines of the trace batches run after the n0-th
+    TLC run (the self-test batch holds deliberately corrupted traces)."""
     import os
-    for f in glob.glob(os.path.join(ctx.work, "tlc*.out")):
+    for n in range(n0 + 1, ctx._tlc_n + 1):
+        f = os.path.join(ctx.work, "tlc%d.out" % n)
+        if not os.path.exists(f):
+            continue
         with open(f) as fh:
             txt = fh.read()
         for m in re.finditer(r'<<"D", (\d+), (\d+), (\{[^}]*\})>>', txt):
